@@ -17,13 +17,34 @@ type wrappedCodecRegistry struct {
 	typ   reflect.Type
 	tag   string
 	codec Codec
+	// pending holds codecs built while the outermost struct codec is still
+	// under construction. They may refer to that incomplete codec, so they are
+	// only published to the underlying registry once it is complete.
+	pending map[pendingKey]Codec
+}
+
+type pendingKey struct {
+	typ reflect.Type
+	tag string
 }
 
 func (w wrappedCodecRegistry) Load(typ reflect.Type, tag string) Codec {
 	if typ == w.typ && tag == w.tag {
 		return w.codec
 	}
+	if c, ok := w.pending[pendingKey{typ: typ, tag: tag}]; ok {
+		return c
+	}
 	return w.CodecRegistry.Load(typ, tag)
+}
+
+func (w wrappedCodecRegistry) StoreOrSwap(typ reflect.Type, tag string, c Codec) Codec {
+	key := pendingKey{typ: typ, tag: tag}
+	if existing, ok := w.pending[key]; ok {
+		return existing
+	}
+	w.pending[key] = c
+	return c
 }
 
 func BuildStructCodec(p CodecBuilder, registry CodecRegistry, typ reflect.Type, tag string) (Codec, error) {
@@ -36,7 +57,13 @@ func BuildStructCodec(p CodecBuilder, registry CodecRegistry, typ reflect.Type, 
 		fields: make([]description, typ.NumField()),
 	}
 
-	registry = wrappedCodecRegistry{CodecRegistry: registry, typ: typ, tag: tag, codec: &c}
+	base := registry
+	outer, nested := registry.(wrappedCodecRegistry)
+	pending := outer.pending
+	if !nested {
+		pending = make(map[pendingKey]Codec)
+	}
+	registry = wrappedCodecRegistry{CodecRegistry: registry, typ: typ, tag: tag, codec: &c, pending: pending}
 
 	var maxIndex int
 	var count int
@@ -115,6 +142,13 @@ func BuildStructCodec(p CodecBuilder, registry CodecRegistry, typ reflect.Type, 
 		c.fieldsByIndex[f.index] = shortDesc{
 			codec:  f.codec,
 			offset: f.offset,
+		}
+	}
+
+	if !nested {
+		// c is complete, and so is everything that was built along the way
+		for key, pc := range pending {
+			base.StoreOrSwap(key.typ, key.tag, pc)
 		}
 	}
 
